@@ -283,7 +283,8 @@ PROPS["C10"] = {
     "facts": COMPOSE_FACTS + ["effects/fallbackexecutor:executor.Apply", "bodies/fallback:config.Build"],
     "required_theorems": ["Failsafe.Props.C10.fallback_spec", "Failsafe.Props.C10.fallback_applied_iff", "Failsafe.Props.C10.fallback_output_reclassified",
                           "Failsafe.Props.C10.unhandled_passthrough", "Failsafe.Props.C10.no_fallback_output_under_cancel", "Failsafe.Props.C10.fallback_sees_failed_outcome"],
-    "diff": [COMPOSE_DIFF], "rule": COMPOSE_RULE, "assumptions": COMPOSE_ASSUME, "modelled": COMPOSE_MODELLED,
+    "diff": [COMPOSE_DIFF], "rule": COMPOSE_RULE + "; STRESS future: (see C15) incl. executions on an executor on which an earlier async execution was cancelled: the ones nobody cancelled get their fallback applied", "assumptions": COMPOSE_ASSUME, "modelled": COMPOSE_MODELLED,
+    "runners": [stress_runner("future", "an execution nobody cancelled, on an executor that an earlier async execution was cancelled on, did not get its handled failure replaced by the fallback")],
     "manifest": {
         "text": "Lean 4 theorems about the fallback layer of the composition model, each for an arbitrary inner layer and run state: the layer's complete behaviour (fallback_spec); applied iff the inner outcome is a failure by the fallback's own conditions and the execution is not cancelled, exactly once (event count); output replaces the result and is re-classified by the same conditions (verdict reset); unhandled results pass through unchanged; no fallback output under cancellation. Tie: FACTS (order of effects in fallback Apply), GEN (IsFailure, flag algebra), DIFF of random policy stacks incl. all fallback kinds against the real library.",
         "note": "Trusted: Lean kernel; translator/fact extractor; harness canonicalisation. WithFunc fallbacks are represented by WithResult/WithError (the builders reduce to WithFunc). The fallback function's view of the failed outcome is a theorem (fallback_sees_failed_outcome) and is observed by DIFF through a WithFunc fallback that records LastResult/LastError.",
@@ -349,7 +350,8 @@ PROPS["C02"] = {
                           "Failsafe.Props.C02.retry_final_result", "Failsafe.Props.C02.retry_abort_stops", "Failsafe.Props.C02.retry_exhausted_passthrough",
                           "Failsafe.Props.C02.retryOnFailure_failed", "Failsafe.Props.C02.retryOnFailure_exceeded", "Failsafe.Props.C02.retryOnFailure_not_done",
                           "Failsafe.Props.C02.retry_stops_after_max_duration"],
-    "diff": [COMPOSE_DIFF], "rule": COMPOSE_RULE, "assumptions": COMPOSE_ASSUME, "runners": [runner_retrytiming_maxduration,
+    "diff": [COMPOSE_DIFF, {"slice": "classify", "n_quick": 150, "n_thorough": 1500, "seeds_thorough": 3, "n_search": 1500}],
+    "rule": COMPOSE_RULE + "; classify slice (see C12): what a retry policy treats as a failure / an abort, over random condition lists and error trees", "assumptions": COMPOSE_ASSUME, "runners": [runner_retrytiming_maxduration,
                 stress_runner("shared", "an execution through a retry policy shared by concurrent and successive executions did not get exactly its own budget of invocations")],
     "modelled": COMPOSE_MODELLED + ["max duration: in the model `ElapsedTime() > maxDuration` holds exactly when a 'sleeping' outcome (75 ms against a 45 ms max duration) has occurred in the execution; scripts with sleeping outcomes contain no blocking ones and no hedge; the delay clamp is C13",
                                     "concurrent executions sharing one policy: the executor state is per execution by construction (ToExecutor body fact); schedules are sampled by the C14 stress run"],
